@@ -1,5 +1,6 @@
 import CTV.Model.CtWire
 import CTV.Lemmas.TlsCodec
+import CTV.Lemmas.RfcWire
 /-!
 Bridge lemmas for C04: the codec types that the regenerated CT declarations resolve to, written out, and
 `Tls.enc` on them in `Option` form (so that it can be compared with the `Rfc.*` encoders).
@@ -156,5 +157,49 @@ theorem encFields_chosen_eo (env : Env) (men tak : List String) (name sel : Stri
   all_goals
     cases enc t _ <;> simp
     cases encFields env (sel :: men) (sel :: tak) rest vs <;> simp
+
+/-! ## decoders agree as soon as encoders do -/
+
+theorem eo_eq_some {α : Type} (r : Except Err α) (a : α) : eo r = some a ↔ r = .ok a := by
+  cases r <;> simp [eo]
+
+/-- RFC-accepted ⇒ accepted by the codec with the same value and rest (needs only "every RFC encoding is what the codec produces"). -/
+theorem dec_of_rfc {α : Type} (T : Ty) (hw : T.wf = true) (toVal : α → Val) (encR : α → Option Bytes)
+    (decR : Bytes → Option (α × Bytes))
+    (hE : ∀ x a, encR x = some a → enc T (toVal x) = .ok a)
+    (h2 : ∀ bs x r, decR bs = some (x, r) → ∃ a, encR x = some a ∧ bs = a ++ r)
+    (bs : Bytes) (x : α) (r : Bytes) (h : decR bs = some (x, r)) : dec T bs = .ok (toVal x, r) := by
+  obtain ⟨a, ha, rfl⟩ := h2 bs x r h
+  exact Tls.dec_enc T (toVal x) a r hw (hE x a ha)
+
+/-- accepted by the codec with an RFC-shaped value ⇒ RFC-accepted (needs only "whatever the codec produces is the RFC encoding"). -/
+theorem rfc_of_dec {α : Type} (T : Ty) (toVal : α → Val) (encR : α → Option Bytes)
+    (decR : Bytes → Option (α × Bytes))
+    (hE : ∀ x a, enc T (toVal x) = .ok a → encR x = some a)
+    (h1 : ∀ x a r, encR x = some a → decR (a ++ r) = some (x, r))
+    (bs : Bytes) (x : α) (r : Bytes) (h : dec T bs = .ok (toVal x, r)) : decR bs = some (x, r) := by
+  obtain ⟨u, rfl, hu⟩ := Tls.enc_dec T bs r (toVal x) h
+  exact h1 x u r (hE x u hu)
+
+theorem dec_agree {α : Type} (T : Ty) (hw : T.wf = true) (toVal : α → Val) (encR : α → Option Bytes)
+    (decR : Bytes → Option (α × Bytes))
+    (hE : ∀ x, eo (enc T (toVal x)) = encR x)
+    (h1 : ∀ x a r, encR x = some a → decR (a ++ r) = some (x, r))
+    (h2 : ∀ bs x r, decR bs = some (x, r) → ∃ a, encR x = some a ∧ bs = a ++ r)
+    (bs : Bytes) (x : α) (r : Bytes) : dec T bs = .ok (toVal x, r) ↔ decR bs = some (x, r) := by
+  constructor
+  · exact rfc_of_dec T toVal encR decR (fun x a h => by rw [← hE x, h]; rfl) h1 bs x r
+  · exact dec_of_rfc T hw toVal encR decR (fun x a h => by rw [← eo_eq_some, hE x, h]) h2 bs x r
+
+theorem wf_ASN1Cert : xASN1Cert.wf = true := by decide
+theorem wf_PreCert : xPreCert.wf = true := by decide
+theorem wf_TimestampedEntry : xTimestampedEntry.wf = true := by decide
+theorem wf_MerkleTreeLeaf : xMerkleTreeLeaf.wf = true := by decide
+theorem wf_DigitallySigned : xDigitallySigned.wf = true := by decide
+theorem wf_SCT : xSCT.wf = true := by decide
+theorem wf_CertificateChain : xCertificateChain.wf = true := by decide
+theorem wf_PrecertChainEntry : xPrecertChainEntry.wf = true := by decide
+theorem wf_SCTList (m : Nat) : (xSCTList m).wf = true := by
+  simp [xSCTList, xSerializedSCT, Ty.wf, Fields.wf, Info.wf, Ty.pos, Fields.pos]
 
 end CtWire
